@@ -170,6 +170,16 @@ def guard(fn):
         return ("exc", type(e).__name__, where, str(e)[:160])
 
 
+def sig_path(d):
+    """stable part of a difference path: up to two components, nothing below a dictionary of stored names"""
+    parts = d.split(":")[0].split("[")[0].split(".")[1:3]
+    if parts and parts[0] in ("attr", "ddb"):
+        parts = parts[:1]
+    if len(parts) == 2 and parts[0] == "descriptor":
+        parts = parts[:2]
+    return ".".join(parts)
+
+
 def three_way(fmt, case, impl, model, spec, fs, label="open"):
     """impl/model: ('ok', value) | ('exc', ...) | ('err',) | ('fuel',); spec: value or None (malformed case)."""
     sig = f"{fmt}:{label}"
@@ -181,7 +191,7 @@ def three_way(fmt, case, impl, model, spec, fs, label="open"):
             d = diff(impl[1], spec)
             if d:
                 fs.append(Finding("impl_vs_spec", f"{fmt} {label}: exposed value differs from the stored record at {d}",
-                                  sig + ":value:" + d.split(":")[0].split("[")[0]))
+                                  sig + ":value:" + sig_path(d)))
         else:
             fs.append(Finding("impl_vs_spec", f"{fmt} {label}: implementation raised {impl[1]} at {impl[2]} ({impl[3]}) "
                               f"on a well-formed input", sig + f":exc:{impl[1]}"))
@@ -563,8 +573,9 @@ def q_model(v, v2):
 class Qcow2Suite(Suite):
     name = "qcow2"
     shard = 20
-    preamble = ("From Coq Require Import ZArith List.\nImport ListNotations.\nOpen Scope Z_scope.\n"
-                "From DH Require Import Base.Plan Model.MetaCodec Model.MetaView.\n")
+    preamble = ("From Coq Require Import String ZArith List.\nImport ListNotations.\n"
+                "From DH Require Import Base.Plan Model.MetaCodec Model.MetaHdd Model.MetaView.\n"
+                "Open Scope string_scope.\nOpen Scope list_scope.\nOpen Scope Z_scope.\n")
 
     def generate(self, rng, tier):
         n, nm = (1200, 400) if tier == "thorough" else (110, 40)
@@ -990,4 +1001,785 @@ class VhdxSuite(Suite):
                 "malformed": case.get("malformed") or "no"}
 
 
-SUITES = {"qcow2": Qcow2Suite(), "vhdx": VhdxSuite()}
+
+# ============================================================================ VMDK
+EXTENT_TYPES = ["SPARSE", "ZERO", "FLAT", "VMFS", "VMFSSPARSE", "VMFSRDM", "VMFSRAW", "SESPARSE"]
+WS_END = " \t\r\x0b\x0c\x1c\x1d\x1e\x1f\x85\xa0\u1680\u2000\u2003\u200a\u2028\u2029\u202f\u205f\u3000"
+
+
+def d_value(rng, n):
+    while True:
+        v = rand_text(rng, n, extra=" =#/\\:;,()[]{}'")
+        if not v or (v[0] not in WS_END + '"' and v[-1] not in WS_END + '"'):
+            return v
+
+
+def d_key(rng, ddb=False):
+    while True:
+        k = rand_text(rng, rng.randint(1, 14), extra=".")
+        if ddb:
+            k = "ddb." + k
+        if k[0] in "#=" or "=" in k or (not ddb and k.startswith("ddb.")) or k.startswith(("RW ", "RDONLY ", "NOACCESS ")):
+            continue
+        if k[0] in WS_END or k[-1] in WS_END:
+            continue
+        return k
+
+
+def d_gen(rng, tier, max_lines=40):
+    """-> record {attrs, extents, ddb, style...} and the rendered text"""
+    attrs = [["version", "1"], ["CID", "%08x" % rng.getrandbits(32)], ["parentCID", "ffffffff"],
+             ["createType", rng.pick(["monolithicSparse", "vmfs", "twoGbMaxExtentSparse", "seSparse", "custom"])]]
+    if rng.chance(0.3):
+        attrs.append(["parentFileNameHint", rng.pick(["parent.vmdk", "/vmfs/volumes/ds 1/vm/parent disk.vmdk",
+                                                       "C:\\VMs\\" + rand_text(rng, 8) + ".vmdk"])])
+    for _ in range(rng.weighted([(0, 3), (1, 2), (rng.randint(2, 8), 2)])):
+        k = d_key(rng)
+        if all(k != a[0] for a in attrs):
+            attrs.append([k, d_value(rng, rng.weighted([(0, 1), (rng.randint(1, 40), 5)]))])
+    if rng.chance(0.1):
+        attrs = attrs[rng.randrange(len(attrs)):]
+    rng.shuffle(attrs)
+    extents = []
+    for _ in range(rng.weighted([(0, 1), (1, 4), (2, 2), (rng.randint(3, 12), 2)])):
+        ty = rng.weighted([(t, 2) for t in EXTENT_TYPES])
+        e = {"access": rng.pick(["RW", "RDONLY", "NOACCESS"]), "sectors": rand_int(rng, 40), "type": ty,
+             "filename": None, "start": None, "partition": None, "device": None,
+             "sep": " ", "lead0": rng.chance(0.1)}
+        if ty != "ZERO" or rng.chance(0.2):
+            fn = rng.pick(["disk-s001.vmdk", "my disk-flat.vmdk", rand_text(rng, rng.randint(1, 30), extra=" =#'()")])
+            e["filename"] = fn
+            if ty in ("FLAT", "VMFS", "VMFSRAW", "VMFSRDM") or rng.chance(0.2):
+                e["start"] = rand_int(rng, 32)
+                if ty in ("VMFSRAW", "VMFSRDM") and rng.chance(0.6):
+                    e["partition"] = rng.pick(["%032x" % rng.getrandbits(128), rand_text(rng, 8, extra=":")])
+                    if rng.chance(0.5):
+                        e["device"] = rand_text(rng, rng.randint(1, 20), extra=":/")
+        extents.append(e)
+    ddb = []
+    std = [["ddb.adapterType", rng.pick(["lsilogic", "ide", "buslogic"])], ["ddb.geometry.cylinders", str(rng.randint(1, 99999))],
+           ["ddb.geometry.heads", "255"], ["ddb.geometry.sectors", "63"], ["ddb.virtualHWVersion", str(rng.randint(4, 21))],
+           ["ddb.uuid", " ".join("%02x" % rng.randrange(256) for _ in range(16))],
+           ["ddb.longContentID", "%032x" % rng.getrandbits(128)], ["ddb.thinProvisioned", "1"]]
+    rng.shuffle(std)
+    for _ in range(rng.weighted([(0, 1), (3, 3), (rng.randint(1, 8), 3)])):
+        if std and rng.chance(0.75):
+            ddb.append(std.pop())
+        else:
+            k = d_key(rng, ddb=True)
+            if all(k != a[0] for a in ddb):
+                ddb.append([k, d_value(rng, rng.randint(0, 30))])
+    nl = rng.weighted([("\n", 6), ("\r\n", 2)])
+    lines = ["# Disk DescriptorFile"]
+
+    def kv(k, v, ddbstyle):
+        st = rng.weighted([("ddb", 4 if ddbstyle else 1), ("plain", 1 if ddbstyle else 3), ("quoted", 2), ("spaced", 1)])
+        if st == "plain" and (v == "" or v[0] in WS_END or v[-1] in WS_END):
+            st = "quoted"
+        body = {"ddb": f'{k} = "{v}"', "plain": f"{k}={v}", "quoted": f'{k}="{v}"', "spaced": f'{k}  =   "{v}"'}[st]
+        return rng.pick(["", "", "", " ", "\t", "   "]) + body + rng.pick(["", "", "", " ", "  \t"])
+    for k, v in attrs:
+        lines.append(kv(k, v, False))
+        if rng.chance(0.1):
+            lines.append(rng.pick(["", "# comment = 1", "   ", "#RW 1 SPARSE \"x\""]))
+    lines += ["", "# Extent description"]
+    for e in extents:
+        sp = e["sep"]
+        secs = ("0" if e["lead0"] else "") + str(e["sectors"])
+        ln = f'{e["access"]}{sp}{secs}{sp}{e["type"]}'
+        if e["filename"] is not None:
+            ln += f'{sp}"{e["filename"]}"'
+        if e["start"] is not None:
+            ln += f'{sp}{e["start"]}'
+        if e["partition"] is not None:
+            ln += f'{sp}{e["partition"]}'
+        if e["device"] is not None:
+            ln += f'{sp}{e["device"]}'
+        e["line"] = ln
+        lines.append(rng.pick(["", "", " "]) + ln + rng.pick(["", "", " "]))
+    lines += ["", "# The Disk Data Base", "#DDB", ""]
+    for k, v in ddb:
+        lines.append(kv(k, v, True))
+    text = nl.join(lines) + rng.pick(["", nl, nl + nl])
+    return {"attrs": attrs, "extents": extents, "ddb": ddb, "text": text, "nl": "crlf" if nl != "\n" else "lf"}
+
+
+def d_spec(r):
+    return {"attr": {k: v for k, v in r["attrs"]}, "ddb": {k: v for k, v in r["ddb"]},
+            "extents": [{"raw": e["line"], "access": e["access"], "sectors": e["sectors"], "type": e["type"],
+                         "filename": e["filename"], "start": e["start"], "partition": e["partition"], "device": e["device"]}
+                        for e in r["extents"]],
+            "sectors": sum(e["sectors"] for e in r["extents"])}
+
+
+def d_impl(d):
+    return {"attr": dict(d.attr), "ddb": dict(d.ddb),
+            "extents": [{"raw": e.raw, "access": e.access_mode, "sectors": e.sectors, "type": e.type, "filename": e.filename,
+                         "start": e.start_sector, "partition": e.partition_uuid, "device": e.device_identifier}
+                        for e in d.extents],
+            "sectors": d.sectors}
+
+
+def d_model(x):
+    attr, exts, ddb, sectors = tup(x)
+    out = []
+    for e in exts:
+        raw, am, sec, ty, fn, st, pu, di = tup(e)
+        out.append({"raw": s_of(raw), "access": s_of(am), "sectors": sec, "type": s_of(ty), "filename": opt(fn, s_of),
+                    "start": opt(st), "partition": opt(pu, s_of), "device": opt(di, s_of)})
+    return {"attr": {s_of(k): s_of(v) for k, v in map(tup, attr)}, "ddb": {s_of(k): s_of(v) for k, v in map(tup, ddb)},
+            "extents": out, "sectors": sectors}
+
+
+VMDK_FIELDS = ["magic", "version", "flags", "capacity", "grain_size", "descriptor_offset", "descriptor_size",
+               "num_grain_table_entries", "secondary_grain_directory_offset", "primary_grain_directory_offset", "overhead",
+               "is_dirty", "single_end_line_char", "non_end_line_char", "double_end_line_chars", "compress_algorithm", "pad"]
+COWD_FIELDS = ["magic", "version", "flags", "capacity", "grain_size", "primary_grain_directory_offset",
+               "num_grain_directory_entries", "next_free_grain"]
+SE_FIELDS = ["magic", "version", "capacity", "grain_size", "grain_table_size", "flags", "reserved1", "reserved2", "reserved3",
+             "reserved4", "volatile_header_offset", "volatile_header_size", "journal_header_offset", "journal_header_size",
+             "journal_offset", "journal_size", "grain_directory_offset", "grain_directory_size", "grain_tables_offset",
+             "grain_tables_size", "free_bitmap_offset", "free_bitmap_size", "backmap_offset", "backmap_size", "grains_offset",
+             "grains_size", "pad"]
+
+
+def s_header_bytes(kind, h):
+    if kind == "vmdk":
+        return struct.pack("<4sIIQQQQIQQQB1s1s2sH", bytes.fromhex(h["magic"]), h["version"], h["flags"], h["capacity"],
+                           h["grain_size"], h["descriptor_offset"], h["descriptor_size"], h["num_grain_table_entries"],
+                           h["secondary_grain_directory_offset"], h["primary_grain_directory_offset"], h["overhead"],
+                           h["is_dirty"], bytes.fromhex(h["single_end_line_char"]), bytes.fromhex(h["non_end_line_char"]),
+                           bytes.fromhex(h["double_end_line_chars"]), h["compress_algorithm"]) + bytes.fromhex(h["pad"])
+    if kind == "cowd":
+        return struct.pack("<4s7I", bytes.fromhex(h["magic"]), *[h[f] for f in COWD_FIELDS[1:]])
+    return struct.pack("<26Q", *[h[f] for f in SE_FIELDS[:-1]]) + bytes.fromhex(h["pad"])
+
+
+def s_gen(rng, tier, malformed=False):
+    kind = rng.weighted([("vmdk", 6), ("cowd", 2), ("sesparse", 2)])
+    c = {"kind": kind, "malformed": None, "desc": None, "footer": False}
+    chunks_extra = {}
+    if kind == "vmdk":
+        gs = rng.pick([1, 8, 16, 128])
+        gte = rng.pick([1, 4, 512])
+        ngd = rng.randint(1, 6)
+        cap = max(1, gs * gte * ngd - rng.randrange(0, gs * gte))
+        desc = d_gen(rng, tier) if rng.chance(0.75) else None
+        doff = rng.randint(1, 3)
+        dsz = 0
+        if desc is not None:
+            tb = desc["text"].encode()
+            dsz = (len(tb) + 511) // 512 + rng.pick([0, 0, 1])
+            if len(tb) % 512 == 0 and rng.chance(0.5):
+                dsz = len(tb) // 512
+            desc["fill"] = rng.pick(["nul", "nul", "nul+garbage"])
+        gdo = doff + dsz + rng.randint(0, 3)
+        h = {"magic": b"KDMV".hex(), "version": rng.pick([1, 2, 3]), "flags": rng.pick([3, 0x30001, 0x10003, rand_int(rng, 32)]),
+             "capacity": cap, "grain_size": gs, "descriptor_offset": doff if dsz else rng.pick([0, doff]), "descriptor_size": dsz,
+             "num_grain_table_entries": gte, "secondary_grain_directory_offset": rand_int(rng, 40),
+             "primary_grain_directory_offset": gdo, "overhead": rand_int(rng, 30), "is_dirty": rng.randrange(2),
+             "single_end_line_char": b"\n".hex(), "non_end_line_char": b" ".hex(), "double_end_line_chars": b"\r\n".hex(),
+             "compress_algorithm": rng.randrange(2), "pad": rng.pick([bytes(433), rng.randbytes(433)]).hex()}
+        c["desc"] = desc
+        c["file_size"] = (gdo + 8) * 512 + 4096
+        if rng.chance(0.25):
+            c["footer"] = True
+            c["front"] = dict(h, primary_grain_directory_offset=0xFFFFFFFFFFFFFFFF, capacity=rand_int(rng, 40))
+            c["file_size"] = ((gdo + 8) * 512 + 4096 + 511) // 512 * 512 + 1024 + 512
+    elif kind == "cowd":
+        h = {"magic": b"COWD".hex(), "version": 1, "flags": rand_int(rng, 32), "capacity": rand_int(rng, 32),
+             "grain_size": rng.pick([1, 8, 128, rand_int(rng, 32)]), "primary_grain_directory_offset": rng.randint(1, 20),
+             "num_grain_directory_entries": rng.randint(0, 40), "next_free_grain": rand_int(rng, 32)}
+        c["file_size"] = 24 * 512
+    else:
+        h = {f: rand_int(rng, 48) for f in SE_FIELDS[:-1]}
+        h.update(magic=0xCAFEBABE, grain_directory_offset=rng.randint(1, 10), grain_directory_size=rng.randint(0, 3),
+                 grain_table_size=rng.pick([1, 64, rand_int(rng, 20)]), pad=rng.pick([bytes(304), rng.randbytes(304)]).hex())
+        c["file_size"] = 16 * 512
+    c["h"] = h
+    if malformed:
+        m = rng.pick(["magic", "truncate", "bad_utf8", "cov0", "se_magic_hi", "gd_far", "footer_kind"])
+        c["malformed"] = m
+        if m == "magic":
+            h["magic"] = rng.pick([b"KDMW".hex(), b"\x00\x00\x00\x00".hex()]) if kind != "sesparse" else 0xCAFEBABF
+        elif m == "truncate":
+            c["file_size"] = rng.pick([0, 3, 4, 31, 32, 100, 511, 512, 600, 1024, 1536])
+        elif m == "bad_utf8" and c["desc"]:
+            c["desc"]["text_bytes"] = (c["desc"]["text"].encode()[:20] + rng.pick([b"\xff", b"\xc3", b"\xed\xa0\x80"])).hex()
+        elif m == "cov0" and kind == "vmdk":
+            h[rng.pick(["grain_size", "num_grain_table_entries"])] = 0
+        elif m == "se_magic_hi" and kind == "sesparse":
+            h["magic"] = 0xCAFEBABE | (rng.randint(1, 5) << 32)
+        elif m == "gd_far":
+            key = "grain_directory_offset" if kind == "sesparse" else "primary_grain_directory_offset"
+            h[key] = rng.pick([c["file_size"] // 512, c["file_size"] // 512 - 1, 1 << 30])
+        elif m == "footer_kind" and kind == "vmdk":
+            c["footer"] = True
+            c["front"] = dict(h, primary_grain_directory_offset=0xFFFFFFFFFFFFFFFF)
+            c["footer_override"] = rng.pick(["cowd", "sesparse", "zero"])
+            c["file_size"] = (c["file_size"] + 511) // 512 * 512 + 1536
+    return c
+
+
+def s_build(c):
+    kind, h = c["kind"], c["h"]
+    chunks = {}
+    hb = s_header_bytes(kind, h)
+    if c.get("footer"):
+        chunks[0] = s_header_bytes("vmdk", c["front"])
+        fo = c["file_size"] - 1024
+        ov = c.get("footer_override")
+        if ov == "cowd":
+            chunks[fo] = b"COWD" + bytes(28)
+        elif ov == "sesparse":
+            chunks[fo] = struct.pack("<Q", 0xCAFEBABE) + bytes(504)
+        elif ov == "zero":
+            chunks[fo] = bytes(512)
+        else:
+            chunks[fo] = hb
+    else:
+        chunks[0] = hb
+    d = c.get("desc")
+    if d is not None and kind == "vmdk":
+        tb = bytes.fromhex(d["text_bytes"]) if d.get("text_bytes") else d["text"].encode()
+        area = h["descriptor_size"] * 512
+        blob = tb[:area]
+        if len(blob) < area:
+            blob += b"\x00"
+            if d.get("fill") == "nul+garbage":
+                blob += b'garbage="after the terminator"\nRW 1 SPARSE "ghost.vmdk"\n'
+            blob = blob[:area].ljust(area, b"\x00")
+        chunks[h["descriptor_offset"] * 512] = blob
+    return chunks, c["file_size"]
+
+
+def s_spec(c):
+    if c.get("malformed"):
+        return None
+    kind, h = c["kind"], c["h"]
+    names = {"vmdk": VMDK_FIELDS, "cowd": COWD_FIELDS, "sesparse": SE_FIELDS}[kind]
+    hd = {}
+    for f in names:
+        v = h[f]
+        if isinstance(v, str):
+            v = bytes.fromhex(v)
+        hd[f] = v
+    if kind == "sesparse":
+        gd, gt = h["grain_directory_size"] * 512 // 8, h["grain_table_size"] * 512 // 8
+    elif kind == "cowd":
+        gd, gt = h["num_grain_directory_entries"], 4096
+    else:
+        cov = h["num_grain_table_entries"] * h["grain_size"]
+        gd, gt = (h["capacity"] + cov - 1) // cov, h["num_grain_table_entries"]
+    return {"kind": kind, "header": hd, "size": h["capacity"] * 512, "sector_count": h["capacity"], "gd_size": gd,
+            "gt_size": gt, "descriptor": None if not c.get("desc") or kind != "vmdk" else d_spec(c["desc"])}
+
+
+class VmdkSuite(Suite):
+    name = "vmdk"
+    shard = 20
+    preamble = Qcow2Suite.preamble
+
+    def generate(self, rng, tier):
+        n, ns, nm = (900, 500, 200) if tier == "thorough" else (90, 50, 25)
+        out = [{"kind": "text", "malformed": None, "desc": d_gen(rng, tier)} for _ in range(n)]
+        out += [s_gen(rng, tier) for _ in range(ns)] + [s_gen(rng, tier, malformed=True) for _ in range(nm)]
+        return out
+
+    def impl(self, case):
+        from dissect.hypervisor.disk import vmdk
+        if case["kind"] == "text":
+            return {"open": guard(lambda: d_impl(vmdk.DiskDescriptor.parse(case["desc"]["text"])))}
+        chunks, size = s_build(case)
+        fh = core.SparseFile(size, chunks, fill="zero")
+        names = {"vmdk": VMDK_FIELDS, "cowd": COWD_FIELDS, "sesparse": SE_FIELDS}
+
+        def op():
+            sd = vmdk.SparseDisk(fh)
+            hdr = sd.header.hdr
+            kind = {"VMDKSparseExtentHeader": "vmdk", "COWDSparseExtentHeader": "cowd",
+                    "VMDKSESparseConstHeader": "sesparse"}[type(hdr).__name__]
+            hd = {}
+            for f in names[kind]:
+                v = getattr(hdr, f)
+                hd[f] = bytes(v) if isinstance(v, (bytes, list)) else int(v)
+            return {"kind": kind, "header": hd, "size": int(sd.size), "sector_count": int(sd.sector_count),
+                    "gd_size": int(sd._grain_directory_size), "gt_size": int(sd._grain_table_size),
+                    "descriptor": None if sd.descriptor is None else d_impl(sd.descriptor)}
+        return {"open": guard(op)}
+
+    def coq_term(self, case):
+        if case["kind"] == "text":
+            return f"dd_case {cps(case['desc']['text'])}"
+        chunks, size = s_build(case)
+        return f"sm_case {rd_term(chunks, size)} {Z(size)}"
+
+    def judge(self, case, impl_res, coq_val):
+        f = fault("vmdk", impl_res)
+        if f:
+            return f
+        fs = []
+        if case["kind"] == "text":
+            three_way("vmdk", case, impl_res["open"], res_map(coq_val, d_model), d_spec(case["desc"]), fs, "descriptor")
+            return fs
+
+        def meta(x):
+            k, hdr, size, sc, gd, gt, desc = tup(x)
+            return {"kind": ["vmdk", "sesparse", "cowd"][k], "header": rec_of(hdr), "size": size, "sector_count": sc,
+                    "gd_size": gd, "gt_size": gt, "descriptor": opt(desc, d_model)}
+        three_way("vmdk", case, impl_res["open"], res_map(coq_val, meta), s_spec(case), fs, "sparse")
+        return fs
+
+    def nontrivial(self, case, impl_res, coq_val):
+        d = case.get("desc")
+        if case.get("malformed") or not d:
+            return None
+        if len(d["attrs"]) + len(d["extents"]) + len(d["ddb"]) >= 3:
+            return core.sha(core.jdump(case).encode())
+        return None
+
+    def dist(self, case):
+        d = case.get("desc")
+        out = {"kind": case["kind"], "malformed": case.get("malformed") or "no", "footer": bool(case.get("footer"))}
+        if d:
+            out.update(lines=min(40, len(d["text"].split("\n")) // 5 * 5), extents=min(len(d["extents"]), 6), nl=d["nl"],
+                       nonascii=nonascii(d["text"]), types=",".join(sorted({e["type"] for e in d["extents"]}))[:40],
+                       spaced_filename=any(e["filename"] and " " in e["filename"] for e in d["extents"]))
+        return out
+
+
+# ============================================================================ VHD / VDI / HDS headers
+VHD_FOOTER = [("cookie", "8s"), ("features", "I"), ("version", "I"), ("data_offset", "Q"), ("timestamp", "I"),
+              ("creator_application", "I"), ("creator_version", "I"), ("creator_host_os", "I"), ("original_size", "Q"),
+              ("current_size", "Q"), ("disk_geometry", "I"), ("disk_type", "I"), ("checksum", "I"), ("unique_id", "16s"),
+              ("saved_state", "1s"), ("reserved", "426s")]
+VHD_DYN = [("cookie", "8s"), ("data_offset", "Q"), ("table_offset", "Q"), ("header_version", "I"), ("max_table_entries", "I"),
+           ("block_size", "I"), ("checksum", "I"), ("parent_unique_id", "16s"), ("parent_timestamp", "I"), ("reserved1", "I"),
+           ("parent_unicode_name", "512s"), ("parent_locators", "192s"), ("reserved2", "256s")]
+VHD_LOC = [("platform_code", "I"), ("platform_data_space", "I"), ("platform_data_length", "I"), ("reserved", "I"),
+           ("platform_data_offset", "Q")]
+VDI_HDR = [("FileInfo", "64s"), ("Signature", "I"), ("Version", "I"), ("HeaderSize", "I"), ("ImageType", "I"), ("ImageFlags", "I"),
+           ("ImageDescription", "256s"), ("BlocksOffset", "I"), ("DataOffset", "I"), ("NumCylinders", "I"), ("NumHeads", "I"),
+           ("NumSectors", "I"), ("SectorSize", "I"), ("Unused1", "I"), ("DiskSize", "Q"), ("BlockSize", "I"),
+           ("BlockExtraData", "I"), ("BlocksInHDD", "I"), ("BlocksAllocated", "I"), ("UUIDVDI", "16s"), ("UUIDSNAP", "16s"),
+           ("UUIDLink", "16s"), ("UUIDParent", "16s")]
+HDS_HDR = [("m_Sig", "16s"), ("m_Type", "I"), ("m_Heads", "I"), ("m_Cylinders", "I"), ("m_Sectors", "I"), ("m_Size", "I"),
+           ("size_lo", "I"), ("size_hi", "I"), ("m_DiskInUse", "I"), ("m_FirstBlockOffset", "I"), ("m_Flags", "I"),
+           ("m_FormatExtensionOffset", "Q")]
+
+
+def pack_fields(spec, vals, endian):
+    fmt = endian + "".join(f for _, f in spec)
+    args = [bytes.fromhex(vals[n]) if f.endswith("s") else vals[n] for n, f in spec]
+    return struct.pack(fmt, *args)
+
+
+def rand_fields(rng, spec):
+    out = {}
+    for n, f in spec:
+        if f.endswith("s"):
+            ln = int(f[:-1])
+            out[n] = rng.pick([bytes(ln), rng.randbytes(ln), rand_text(rng, ln, "ascii").encode()[:ln].ljust(ln, b"\x00")]).hex()
+        else:
+            out[n] = rand_int(rng, {"I": 32, "Q": 64}[f])
+    return out
+
+
+def fields_spec(spec, vals):
+    return {n: (bytes.fromhex(vals[n]) if f.endswith("s") else vals[n]) for n, f in spec}
+
+
+def h_gen(rng, tier, malformed=False):
+    kind = rng.weighted([("vhd_fixed", 2), ("vhd_dynamic", 3), ("vdi", 3), ("hds1", 2), ("hds2", 2)])
+    c = {"kind": kind, "malformed": None}
+    if kind.startswith("vhd"):
+        f = rand_fields(rng, VHD_FOOTER)
+        c["legacy"] = rng.chance(0.25)
+        f["features"] = rng.pick([0, 1]) if c["legacy"] else rng.pick([2, 3])
+        f["cookie"] = b"conectix".hex()
+        if kind == "vhd_fixed":
+            f["data_offset"] = 0xFFFFFFFFFFFFFFFF
+            c["body"] = rng.pick([0, 512, 5000])
+        else:
+            f["data_offset"] = 512 * rng.randint(1, 4)
+            d = rand_fields(rng, VHD_DYN)
+            d["cookie"] = b"cxsparse".hex()
+            if rng.chance(0.6):
+                d["parent_unicode_name"] = rand_text(rng, rng.randint(1, 100)).encode("utf-16-be")[:512].ljust(512, b"\x00").hex()
+            locs = [rand_fields(rng, VHD_LOC) for _ in range(8)]
+            d["parent_locators"] = b"".join(pack_fields(VHD_LOC, l, ">") for l in locs).hex()
+            c["dyn"], c["locs"] = d, locs
+            c["body"] = f["data_offset"] + 1024 + rng.pick([0, 512, 2048])
+        c["footer"] = f
+    elif kind == "vdi":
+        h = rand_fields(rng, VDI_HDR)
+        h["Signature"] = 0xBEDA107F
+        n = rng.weighted([(0, 1), (1, 1), (rng.randint(2, 40), 5)])
+        h["BlocksInHDD"] = n
+        h["BlocksOffset"] = rng.pick([456, 512, 1024, 4096 + rng.randrange(100)])
+        c["map"] = [rng.weighted([(-1, 2), (-2, 1), (rng.randrange(0, 1 << 20), 4), (-(1 << 31), 1), ((1 << 31) - 1, 1)])
+                    for _ in range(n)]
+        c["h"] = h
+    else:
+        h = rand_fields(rng, HDS_HDR)
+        h["m_Sig"] = (b"WithoutFreeSpace" if kind == "hds1" else b"WithouFreSpacExt").hex()
+        h["m_DiskInUse"] = rng.pick([0, 0x746F6E59, rand_int(rng, 32)])
+        c["h"] = h
+    if malformed:
+        m = rng.pick(["sig", "truncate", "map_short", "dyn_far"])
+        c["malformed"] = m
+        if m == "sig":
+            if kind == "vdi":
+                c["h"]["Signature"] ^= 1 << rng.randrange(32)
+            elif kind.startswith("hds"):
+                c["h"]["m_Sig"] = rng.pick([b"WithoutFreeSpacf", b"withoutfreespace", bytes(16)]).hex()
+        elif m == "truncate":
+            c["truncate"] = rng.pick([512, 513, 600, 63, 455, 456, 64, 1024, 1535])
+        elif m == "map_short" and kind == "vdi":
+            c["map_cut"] = rng.randint(1, 7)
+        elif m == "dyn_far" and kind == "vhd_dynamic":
+            c["footer"]["data_offset"] = rng.pick([c["body"], c["body"] - 1000, 1 << 40])
+    return c
+
+
+def h_build(c):
+    kind = c["kind"]
+    chunks = {}
+    if kind.startswith("vhd"):
+        fb = pack_fields(VHD_FOOTER, c["footer"], ">")
+        assert len(fb) == 511
+        if kind == "vhd_dynamic":
+            chunks[0] = fb + b"\x00"
+            chunks[512 * ((c["footer"]["data_offset"] // 512) if c["footer"]["data_offset"] < (1 << 30) else 1)] = b""
+            if c["footer"]["data_offset"] < (1 << 30):
+                chunks[c["footer"]["data_offset"]] = pack_fields(VHD_DYN, c["dyn"], ">")
+        body = c["body"]
+        if c["legacy"]:
+            chunks[body] = fb
+            size = body + 511
+        else:
+            chunks[body] = fb + b"\x00"
+            size = body + 512
+    elif kind == "vdi":
+        chunks[0] = pack_fields(VDI_HDR, c["h"], "<")
+        mb = b"".join(struct.pack("<i", v) for v in c["map"])
+        size = c["h"]["BlocksOffset"] + len(mb) + 64
+        if c.get("map_cut"):
+            size = c["h"]["BlocksOffset"] + max(0, len(mb) - c["map_cut"])
+        chunks[c["h"]["BlocksOffset"]] = mb
+    else:
+        chunks[0] = pack_fields(HDS_HDR, c["h"], "<")
+        size = 64 + 256
+    if c.get("truncate") is not None:
+        size = min(size, c["truncate"])
+    chunks = {o: b for o, b in chunks.items() if b}
+    return chunks, size
+
+
+def h_spec(c):
+    if c.get("malformed"):
+        return None
+    kind = c["kind"]
+    if kind.startswith("vhd"):
+        return {"fixed": kind == "vhd_fixed", "size": c["footer"]["current_size"], "footer": fields_spec(VHD_FOOTER, c["footer"]),
+                "header": fields_spec(VHD_DYN, c["dyn"]) if kind == "vhd_dynamic" else None,
+                "locators": [fields_spec(VHD_LOC, l) for l in c["locs"]] if kind == "vhd_dynamic" else []}
+    if kind == "vdi":
+        h = c["h"]
+        return {"header": fields_spec(VDI_HDR, h), "size": h["DiskSize"], "block_size": h["BlockSize"],
+                "sector_size": h["SectorSize"], "data_offset": h["DataOffset"], "map": c["map"]}
+    h = c["h"]
+    v1 = kind == "hds1"
+    sectors = h["size_lo"] if v1 else h["size_lo"] | (h["size_hi"] << 32)
+    hd = fields_spec([x for x in HDS_HDR if not x[0].startswith("size_")], h)
+    hd.update(m_SizeInSectors_v1=h["size_lo"], Unused=h["size_hi"], m_SizeInSectors_v2=h["size_lo"] | (h["size_hi"] << 32))
+    return {"header": hd, "v2": not v1, "size": sectors * 512, "cluster_size": h["m_Sectors"] * 512,
+            "data_offset": h["m_FirstBlockOffset"], "in_use": h["m_DiskInUse"] == 0x746F6E59}
+
+
+def struct_dict(obj, names):
+    out = {}
+    for n in names:
+        v = getattr(obj, n)
+        out[n] = bytes(v) if isinstance(v, (bytes, list)) else int(v)
+    return out
+
+
+class HdrsSuite(Suite):
+    name = "hdrs"
+    shard = 25
+    preamble = Qcow2Suite.preamble
+
+    def generate(self, rng, tier):
+        n, nm = (800, 200) if tier == "thorough" else (80, 20)
+        return [h_gen(rng, tier) for _ in range(n)] + [h_gen(rng, tier, malformed=True) for _ in range(nm)]
+
+    def impl(self, case):
+        chunks, size = h_build(case)
+        fh = core.SparseFile(size, chunks, fill="zero")
+        kind = case["kind"]
+
+        def op():
+            if kind.startswith("vhd"):
+                from dissect.hypervisor.disk import vhd
+                v = vhd.VHD(fh)
+                dyn = isinstance(v.disk, vhd.DynamicDisk)
+                return {"fixed": not dyn, "size": int(v.size), "footer": struct_dict(v.disk.footer, [n for n, _ in VHD_FOOTER]),
+                        "header": struct_dict(v.disk.header, [n for n, _ in VHD_DYN if n != "parent_locators"]) if dyn else None,
+                        "locators": [struct_dict(l, [n for n, _ in VHD_LOC]) for l in v.disk.header.parent_locators] if dyn else []}
+            if kind == "vdi":
+                from dissect.hypervisor.disk import vdi
+                v = vdi.VDI(fh)
+                return {"header": struct_dict(v.header, [n for n, _ in VDI_HDR]), "size": int(v.size),
+                        "block_size": int(v.block_size), "sector_size": int(v.sector_size), "data_offset": int(v.data_offset),
+                        "map": [int(x) for x in v.map]}
+            from dissect.hypervisor.disk import hdd
+            v = hdd.HDS(fh)
+            names = [n for n, _ in HDS_HDR if not n.startswith("size_")] + ["m_SizeInSectors_v1", "Unused", "m_SizeInSectors_v2"]
+            return {"header": struct_dict(v.header, names), "v2": v._bat_step == 1 and bytes(v.header.m_Sig) != b"WithoutFreeSpace",
+                    "size": int(v.size), "cluster_size": int(v.cluster_size), "data_offset": int(v.data_offset),
+                    "in_use": bool(v.in_use)}
+        return {"open": guard(op)}
+
+    def coq_term(self, case):
+        chunks, size = h_build(case)
+        rd = rd_term(chunks, size)
+        if case["kind"].startswith("vhd"):
+            return f"vhd_case {rd} {Z(size)}"
+        return f"{'vdi' if case['kind'] == 'vdi' else 'hds'}_case {rd}"
+
+    def judge(self, case, impl_res, coq_val):
+        f = fault("hdrs", impl_res)
+        if f:
+            return f
+        kind = case["kind"]
+
+        def meta(x):
+            t = tup(x)
+            if kind.startswith("vhd"):
+                hdr = opt(t[3], rec_of)
+                if hdr is not None:
+                    hdr.pop("parent_locators")
+                return {"fixed": boolv(t[0]), "size": t[1], "footer": rec_of(t[2]), "header": hdr,
+                        "locators": [rec_of(l) for l in t[4]]}
+            if kind == "vdi":
+                return {"header": rec_of(t[0]), "size": t[1], "block_size": t[2], "sector_size": t[3], "data_offset": t[4],
+                        "map": t[5]}
+            return {"header": rec_of(t[0]), "v2": boolv(t[1]), "size": t[2], "cluster_size": t[3], "data_offset": t[4],
+                    "in_use": boolv(t[5])}
+        spec = h_spec(case)
+        if spec is not None and spec.get("header") and kind == "vhd_dynamic":
+            spec["header"].pop("parent_locators", None)
+        fs = []
+        three_way(kind.split("_")[0], case, impl_res["open"], res_map(coq_val, meta), spec, fs, "header")
+        return fs
+
+    def nontrivial(self, case, impl_res, coq_val):
+        return None if case.get("malformed") else core.sha(core.jdump(case).encode())
+
+    def dist(self, case):
+        return {"kind": case["kind"], "legacy511": case.get("legacy", "n/a"), "malformed": case.get("malformed") or "no",
+                "map_len": min(len(case.get("map", [])), 10) if case["kind"] == "vdi" else "n/a"}
+
+
+# ============================================================================ Parallels DiskDescriptor.xml
+def xml_escape(s):
+    return s.replace("&", "&amp;").replace("<", "&lt;").replace(">", "&gt;")
+
+
+def guid_text(rng, g, style=None):
+    u = UUID(int=g)
+    style = style or rng.weighted([("braces", 5), ("upper", 2), ("bare", 1), ("hex", 1), ("urn", 1)])
+    return {"braces": "{%s}" % u, "upper": ("{%s}" % u).upper(), "bare": str(u), "hex": u.hex, "urn": u.urn}[style]
+
+
+def int_text(rng, n):
+    return rng.weighted([(str(n), 6), (f" {n} ", 1), (f"\n   {n}\n  ", 1), (f"+{n}", 1), (f"00{n}", 1)])
+
+
+def p_gen(rng, tier, malformed=False):
+    guids = [rng.getrandbits(128) for _ in range(rng.randint(1, 6))]
+    if rng.chance(0.3):
+        guids[0] = UUID("5fbaabe3-6958-40ff-92a7-860e329aab41").int
+    storages = []
+    pos = 0
+    for _ in range(rng.weighted([(1, 5), (2, 2), (rng.randint(3, 4), 1)])):
+        n = rng.weighted([(0, 1), (1, 3), (rng.randint(2, 5), 4)])
+        end = pos + rand_int(rng, 36) + 1
+        images = []
+        for i in range(n):
+            fn = rng.weighted([("harddisk.hdd.0.{%s}.hds" % UUID(int=rng.getrandbits(128)), 3),
+                               ("/Users/x/My VM.pvm/disk 1.hdd/" + rand_text(rng, 10, extra=" &<>'\"") + ".hds", 3),
+                               (rand_text(rng, rng.randint(1, 40), extra=" &<>'\"/"), 2), (None, 1)])
+            ty = rng.weighted([("Compressed", 4), ("Plain", 2), (rand_text(rng, 6), 1), (None, 1)])
+            images.append({"guid": rng.pick(guids), "type": ty, "file": fn})
+        storages.append({"start": pos, "end": end, "images": images})
+        pos = end
+    shots = []
+    for i, g in enumerate(guids):
+        shots.append({"guid": g, "parent": 0 if i == 0 else guids[rng.randrange(i)]})
+    if rng.chance(0.15):
+        shots = []
+    rng.shuffle(shots)
+    top = rng.weighted([(None, 3), (rng.pick(guids), 5), (rng.getrandbits(128), 1)])
+    c = {"storages": storages, "shots": shots, "top": top, "malformed": None,
+         "decl": rng.pick([True, False]), "indent": rng.pick(["", "  ", "\t"]), "noise": rng.chance(0.5),
+         "top_pos": rng.pick(["first", "last", "middle"]), "style_seed": rng.getrandbits(32)}
+    if malformed:
+        c["malformed"] = rng.pick(["no_storagedata", "no_snapshots", "no_start", "bad_guid", "bad_int", "empty_top",
+                                   "no_image_guid", "empty_guid", "no_parent", "short_guid"])
+    return c
+
+
+def p_tree(c):
+    """-> nested (tag, text, [children]) — the element tree both the document and the model term are made from"""
+    rng = core.Rng(c["style_seed"])
+    m = c.get("malformed")
+
+    def leaf(t, s):
+        return (t, s, [])
+    sts = []
+    for si, s in enumerate(c["storages"]):
+        kids = [leaf("Start", int_text(rng, s["start"])), leaf("End", int_text(rng, s["end"])), leaf("Blocksize", "2048")]
+        if m == "no_start" and si == 0:
+            kids.pop(0)
+        if m == "bad_int" and si == 0:
+            kids[1] = leaf("End", rng.pick(["12a", "", "0x10", "1.5", "1 2"]))
+        if c["noise"]:
+            kids.insert(rng.randrange(len(kids) + 1), leaf("Comment", "Image"))
+        for ii, im in enumerate(s["images"]):
+            ik = [leaf("GUID", guid_text(rng, im["guid"])), leaf("Type", im["type"]), leaf("File", im["file"])]
+            if m == "no_image_guid" and ii == 0:
+                ik.pop(0)
+            if m == "bad_guid" and ii == 0:
+                ik[0] = leaf("GUID", rng.pick(["{5fbaabe3-6958-40ff-92a7-860e329aab4g}", "nope", "{}", "5fbaabe3"]))
+            if m == "short_guid" and ii == 0:
+                ik[0] = leaf("GUID", guid_text(rng, im["guid"], "braces")[:-3])
+            if m == "empty_guid" and ii == 0:
+                ik[0] = leaf("GUID", None)
+            if c["noise"] and rng.chance(0.5):
+                rng.shuffle(ik)
+            kids.append(("Image", None, ik))
+        sts.append(("Storage", None, kids))
+    shots = []
+    for hi, sh in enumerate(c["shots"]):
+        hk = [leaf("GUID", guid_text(rng, sh["guid"])), leaf("ParentGUID", guid_text(rng, sh["parent"]))]
+        if m == "no_parent" and hi == 0:
+            hk.pop()
+        if c["noise"] and rng.chance(0.5):
+            hk.reverse()
+        shots.append(("Shot", None, hk))
+    snk = list(shots)
+    if c["top"] is not None or m == "empty_top":
+        t = leaf("TopGUID", None if m == "empty_top" else guid_text(rng, c["top"]))
+        pos = {"first": 0, "last": len(snk), "middle": len(snk) // 2}[c["top_pos"]]
+        snk.insert(pos, t)
+    root_kids = [("Disk_Parameters", None, [leaf("Disk_size", "134217728"), leaf("Cylinders", "133152"), leaf("Heads", "16")]),
+                 ("StorageData", None, sts), ("Snapshots", None, snk)]
+    if m == "no_storagedata":
+        root_kids.pop(1)
+    if m == "no_snapshots":
+        root_kids.pop()
+    if c["noise"]:
+        rng.shuffle(root_kids)
+    return ("Parallels_disk_image", None, root_kids)
+
+
+def p_xml(c, tree):
+    ind = c["indent"]
+
+    def ser(node, depth):
+        t, text, kids = node
+        pad = ("\n" + ind * depth) if ind else ""
+        if not kids:
+            if text is None:
+                return f"{pad}<{t}/>" if depth % 2 else f"{pad}<{t}></{t}>"
+            return f"{pad}<{t}>{xml_escape(text)}</{t}>"
+        attrs = ' Version="1.0"' if depth == 0 else ""
+        return f"{pad}<{t}{attrs}>" + "".join(ser(k, depth + 1) for k in kids) + f"{pad}</{t}>"
+    doc = ser(tree, 0).lstrip("\n")
+    if c["decl"]:
+        doc = '<?xml version="1.0" encoding="UTF-8"?>\n' + doc
+    return doc + "\n"
+
+
+def p_term(node):
+    t, text, kids = node
+    tx = "None" if text is None else f"(Some {cps(text)})"
+    return f"(El {cps(t)} {tx} [" + "; ".join(p_term(k) for k in kids) + "])"
+
+
+def p_spec(c):
+    if c.get("malformed"):
+        return None
+    return {"storages": [{"start": s["start"], "end": s["end"],
+                          "images": [{"guid": i["guid"], "type": i["type"], "file": i["file"]} for i in s["images"]]}
+                         for s in c["storages"]],
+            "top": c["top"], "shots": [{"guid": s["guid"], "parent": s["parent"]} for s in c["shots"]]}
+
+
+class HddSuite(Suite):
+    name = "hdd"
+    shard = 30
+    preamble = Qcow2Suite.preamble
+
+    def generate(self, rng, tier):
+        n, nm = (900, 250) if tier == "thorough" else (90, 30)
+        return [p_gen(rng, tier) for _ in range(n)] + [p_gen(rng, tier, malformed=True) for _ in range(nm)]
+
+    def impl(self, case):
+        from pathlib import Path
+
+        from dissect.hypervisor.disk import hdd
+        os.makedirs(SCRATCH, exist_ok=True)
+        d = tempfile.mkdtemp(dir=SCRATCH, suffix=".hdd")
+        try:
+            with open(os.path.join(d, "DiskDescriptor.xml"), "w", encoding="utf-8") as fh:
+                fh.write(p_xml(case, p_tree(case)))
+
+            def op():
+                desc = hdd.HDD(Path(d)).descriptor
+                top = desc.snapshots.top_guid
+                return {"storages": [{"start": s.start, "end": s.end,
+                                      "images": [{"guid": i.guid.int, "type": i.type, "file": i.file} for i in s.images]}
+                                     for s in desc.storage_data.storages],
+                        "top": None if top is None else (top.int if isinstance(top, UUID) else f"<{type(top).__name__}>"),
+                        "shots": [{"guid": s.guid.int, "parent": s.parent.int} for s in desc.snapshots.shots]}
+            return {"open": guard(op)}
+        finally:
+            shutil.rmtree(d, ignore_errors=True)
+
+    def coq_term(self, case):
+        return f"pd_case {p_term(p_tree(case))}"
+
+    def judge(self, case, impl_res, coq_val):
+        f = fault("hdd", impl_res)
+        if f:
+            return f
+
+        def meta(x):
+            sts, top, shots = tup(x)
+            out = []
+            for s in sts:
+                a, b, ims = tup(s)
+                out.append({"start": a, "end": b, "images": [{"guid": g, "type": opt(t, s_of), "file": opt(fl, s_of)}
+                                                             for g, t, fl in map(tup, ims)]})
+            return {"storages": out, "top": opt(top), "shots": [{"guid": g, "parent": p} for g, p in map(tup, shots)]}
+        fs = []
+        three_way("hdd", case, impl_res["open"], res_map(coq_val, meta), p_spec(case), fs, "descriptor")
+        return fs
+
+    def nontrivial(self, case, impl_res, coq_val):
+        if case.get("malformed"):
+            return None
+        if sum(len(s["images"]) for s in case["storages"]) + len(case["shots"]) >= 2:
+            return core.sha(core.jdump(case).encode())
+        return None
+
+    def dist(self, case):
+        return {"storages": len(case["storages"]), "images": min(6, sum(len(s["images"]) for s in case["storages"])),
+                "shots": len(case["shots"]), "top": "none" if case["top"] is None else "present", "top_pos": case["top_pos"],
+                "noise": case["noise"], "malformed": case.get("malformed") or "no"}
+
+
+SUITES = {"qcow2": Qcow2Suite(), "vhdx": VhdxSuite(), "vmdk": VmdkSuite(), "hdrs": HdrsSuite(), "hdd": HddSuite()}
